@@ -42,9 +42,9 @@ Section RW.
     else if k =? RawHTMLKind then
       ((if ignoreRaw c then [] else if filterOn c then filterRaw c (spanOf src i) else spanOf src i), false)
     else if k =? SoftLineBreakKind then
-      ((if softBreak c =? 2 then s_br else if softBreak c =? 1 then [32]
+      ((if softBreak c =? 2 then openTag c s_brname ++ [10] else if softBreak c =? 1 then [32]
         else if 0 <? iend i - istart i then spanOf src i else [10]), false)
-    else if k =? HardLineBreakKind then (s_br, false)
+    else if k =? HardLineBreakKind then (openTag c s_brname ++ [10], false)
     else if k =? EmphasisKind then (openTag c [101;109], true)
     else if k =? StrongKind then (openTag c [115;116;114;111;110;103], true)
     else if k =? CodeSpanKind then (openTag c [99;111;100;101], true)
